@@ -155,6 +155,23 @@ static void *client(void *arg) {
 	return NULL;
 }
 
+// every asynchronous item has run -- or none has for 10 s (progress based: a slow machine is not a failure)
+static void wait_async_done(void) {
+	long last = -1; int idle = 0;
+	while (atomic_load(&n_async_done) < atomic_load(&n_async_sub)) {
+		long d = atomic_load(&n_async_done);
+		if (d != last) { last = d; idle = 0; } else if (++idle > 40000) break;
+		usleep(250);
+	}
+}
+// the last drainer has given the queue back: owner bits and ENQUEUED clear (up to 60 s), then time for its hook record
+static uint64_t wait_idle_word(dispatch_lane_t dl) {
+	uint64_t v = 0;
+	for (int i = 0; i < 600000; i++) { v = *(volatile uint64_t *)&dl->dq_state; if ((v & 0x3fffffffull) == 0 && !(v & 0x80000000ull)) break; usleep(100); }
+	usleep(200000);
+	return v;
+}
+
 static void *watchdog(void *a) {
 	(void)a; uint64_t last = 0; int idle = 0;
 	for (;;) { usleep(250000); uint64_t p = atomic_load(&stamp);
@@ -225,17 +242,17 @@ static void ot_cb(const volatile void *addr, unsigned size, int kind, int order,
 	if (!ot_dl) return;
 	if ((uintptr_t)addr == (uintptr_t)&ot_dl->dq_items_tail && kind != 1 && atomic_load(&o_held) && pthread_equal(pthread_self(), ot_u)) {
 		if (atomic_exchange(&u_held, 1)) return;
-		for (int k = 0; k < 100000 && !atomic_load(&release_u); k++) usleep(50);
+		for (int k = 0; k < 1200000 && !atomic_load(&release_u); k++) usleep(50);
 	} else if ((uintptr_t)addr == (uintptr_t)&ot_dl->dq_state && kind == 1 && atomic_load(&o_known) && atomic_load(&z0_done) &&
 			pthread_equal(pthread_self(), ot_o)) {
 		if (atomic_exchange(&o_held, 1)) return;
-		for (int k = 0; k < 100000 && !atomic_load(&release_o); k++) usleep(50);
+		for (int k = 0; k < 1200000 && !atomic_load(&release_o); k++) usleep(50);
 	}
 }
 static void ot_z0(void *c) {
 	(void)c; dv_user(DVU_CALLOUT_BEGIN, K_ASYNC, 0, 0); now();
 	ot_o = pthread_self(); atomic_store(&o_known, 1);
-	for (int k = 0; k < 100000 && !atomic_load(&z0_go); k++) usleep(50);
+	for (int k = 0; k < 1200000 && !atomic_load(&z0_go); k++) usleep(50);
 	dv_user(DVU_CALLOUT_END, K_ASYNC, 0, 0); atomic_store(&z0_done, 1);
 }
 static void *ot_u_main(void *a) {
@@ -262,16 +279,16 @@ static int overtake_scenario(uint64_t seed) {
 	pthread_t wd; pthread_create(&wd, NULL, watchdog, NULL);
 	// z0: a worker takes the drain lock, runs it, finds the list empty and is held at the load of drain_try_unlock
 	dv_user(DVU_CALL, K_ASYNC, 0, 0); dispatch_async_f(q, NULL, ot_z0); dv_user(DVU_RET, K_ASYNC, 0, 0);
-	for (int k = 0; k < 100000 && !atomic_load(&o_known); k++) usleep(50);
+	for (int k = 0; k < 600000 && !atomic_load(&o_known); k++) usleep(50);
 	atomic_store(&z0_go, 1);
-	for (int k = 0; k < 100000 && !atomic_load(&o_held); k++) usleep(50);
+	for (int k = 0; k < 600000 && !atomic_load(&o_held); k++) usleep(50);
 	// U: dispatch_async(x1), held after its exchange of dq_items_tail (it owes the wakeup)
 	pthread_create(&ot_u, NULL, ot_u_main, NULL);
-	for (int k = 0; k < 100000 && !atomic_load(&u_held); k++) usleep(50);
+	for (int k = 0; k < 600000 && !atomic_load(&u_held); k++) usleep(50);
 	// V (this thread): dispatch_async(x2): the list is not empty and no override is needed: no wakeup; the call returns
 	item_t *x2 = mk_item(K_ASYNC, &rng, me); submit_async(x2);
 	atomic_store(&release_o, 1);
-	int is_idle = 0; for (int k = 0; k < 20000 && !(is_idle = (*(volatile uint64_t *)&dl->dq_state == idle)); k++) usleep(50);
+	int is_idle = 0; for (int k = 0; k < 200000 && !(is_idle = (*(volatile uint64_t *)&dl->dq_state == idle)); k++) usleep(50);
 	int reached = atomic_load(&o_held) && atomic_load(&u_held) && is_idle;
 	// V: dispatch_sync(b): must not run before x2
 	item_t *b = mk_item(K_SYNC, &rng, me); b->prev = x2; ot_b = b;
@@ -284,10 +301,9 @@ static int overtake_scenario(uint64_t seed) {
 	int u_released_at_b = atomic_load(&release_u);
 	if (atomic_load(&b->runs) != 1) FAIL("dispatch_sync of item %d returned with run count %d", b->serial, atomic_load(&b->runs));
 	pthread_join(rt, NULL); pthread_join(ot_u, NULL);
-	for (int i = 0; i < 40000 && atomic_load(&n_async_done) < atomic_load(&n_async_sub); i++) usleep(250);
+	wait_async_done();
 	if (atomic_load(&n_async_done) != atomic_load(&n_async_sub)) FAIL("%ld of %ld asynchronous items never ran", atomic_load(&n_async_sub) - atomic_load(&n_async_done), atomic_load(&n_async_sub));
-	uint64_t fin = 0; for (int i = 0; i < 20000; i++) { fin = *(volatile uint64_t *)&dl->dq_state; if (fin == idle) break; usleep(100); }
-	usleep(20000);
+	uint64_t fin = wait_idle_word(dl);
 	atomic_store(&dv_enabled, 0);
 	order_check();
 	printf("OT schedule_reached=%d o_held=%d u_held=%d idle_word_with_items=%d u_released_when_sync_returned=%d\n", reached,
@@ -323,10 +339,9 @@ int main(int argc, char **argv) {
 	stop_feed = 1;
 	for (int k = nclients; k < n; k++) pthread_join(th[k], NULL);
 	// quiesce: every asynchronous item has run and the last drainer has given the queue back
-	for (int i = 0; i < 40000 && atomic_load(&n_async_done) < atomic_load(&n_async_sub); i++) usleep(250);
+	wait_async_done();
 	if (atomic_load(&n_async_done) != atomic_load(&n_async_sub)) FAIL("%ld of %ld asynchronous items never ran", atomic_load(&n_async_sub) - atomic_load(&n_async_done), atomic_load(&n_async_sub));
-	uint64_t idle = dl->dq_state; for (int i = 0; i < 20000; i++) { idle = *(volatile uint64_t *)&dl->dq_state; if ((idle & 0x3fffffffull) == 0 && !(idle & 0x80000000ull)) break; usleep(100); }
-	usleep(20000);
+	uint64_t idle = wait_idle_word(dl);
 	atomic_store(&dv_enabled, 0);
 	order_check();
 	if (chain.n != (uint64_t)atomic_load(&n_items)) FAIL("chain count %llu differs from the number of items %ld", (unsigned long long)chain.n, atomic_load(&n_items));
